@@ -16,7 +16,7 @@ pub fn meta() -> Meta {
     Meta {
         id: "C11",
         level: "model_checking",
-        rule: "(1)+(2) configuration sweep through the real CLI with real thread pools: subcommand in {build, align, map aln, map vcf, distance, lo with reference, lo without} x input kind {.skf, sequence files} where accepted x sample count in {2,9,10,11,19,20,21,29,30,31} (both sides of every step of the 10-samples-per-thread rule; build additionally 69,70,149,150 for split depth 3 and 4) x thread counts (quick: 1,2,3,4,8,16 and all 1..16 at n=10 and 21; thorough: all 1..16) x hash seeds {s, s+1} (thorough 4): exit status 0 whenever the 1-thread run exits 0 and output equal to the 1-thread/seed-s output — byte-exact for map, distance and lo with reference, as a table for build (every sample in its input column), as a column multiset for align, as a column multiset modulo complement for reference-free lo. (3) schedule exploration of the only racy structure (DashMap neighbour vectors in skalo::build_graph): an explicit-state model enumerates every interleaving of the per-row push operations of W=2,3 workers pulling rows from a shared iterator and collects the set R of reachable final graphs; every element of R is fed through the real identify_good_kmers + build_variant_groups and must give the same, planted result; real multi-threaded build_graph runs must land inside R; 1-thread runs on permuted rows must equal the model's result for that item order. states/transitions are those of the interleaving model; traces_validated = elements of R replayed through the real downstream code + real runs checked for membership.".into(),
+        rule: "(1)+(2) configuration sweep through the real CLI with real thread pools: subcommand in {build, align, map aln, map vcf, distance, lo with reference, lo without} x input kind {.skf, sequence files} where accepted x sample count in {2,9,10,11,19,20,21,29,30,31} (both sides of every step of the 10-samples-per-thread rule; build additionally 69,70,149,150 for split depth 3 and 4) x thread counts (quick: 1,2,3,4,8,16 and all 1..16 at n=10 and 21; thorough: all 1..16) x hash seeds {s, s+1} (thorough 4): exit status 0 whenever the 1-thread run exits 0 and output equal to the 1-thread/seed-s output — byte-exact for map, distance and lo with reference, as a table for build (every sample in its input column), as a column multiset for align, as a column multiset modulo complement for reference-free lo; plus `ska lo -r` on a reference with a three-copy repeat and junction SNPs under 8 (thorough 24) hash seeds x threads 1,2,4, all outputs identical. (3) schedule exploration of the only racy structure (DashMap neighbour vectors in skalo::build_graph): an explicit-state model enumerates every interleaving of the per-row push operations of W=2,3 workers pulling rows from a shared iterator and collects the set R of reachable final graphs; every element of R is fed through the real identify_good_kmers + build_variant_groups and must give the same, planted result; real multi-threaded build_graph runs must land inside R; 1-thread runs on permuted rows must equal the model's result for that item order. states/transitions are those of the interleaving model; traces_validated = elements of R replayed through the real downstream code + real runs checked for membership.".into(),
         assumptions: vec![
             "rayon's internal scheduling is not explored; outside skalo there is no shared mutable state (fork-join over disjoint slices, ordered collection), and the sweep would expose a violation of that argument as an output difference".into(),
             "each DashMap entry operation is atomic (the entry guard holds the shard lock for the statement)".into(),
@@ -189,6 +189,61 @@ pub fn run_sweep(ctx: &Ctx, rep: &mut Report) {
         }
         rep.corner(&format!("{cmd:?}"));
         let _ = base_tail;
+    }
+    // reference-mode ska lo on a reference with a three-copy repeat: positioning votes come out of hash maps,
+    // so the result must not depend on the hash seed (8 seeds) or the thread count
+    if !rep.capped {
+        idx += 1;
+        if ctx.mine(idx) {
+            let k = 17usize;
+            let body = lo::ancestor(16 * k + 2 * k + 6, k, ctx.seed + 99);
+            let r = body[..2 * k + 6].to_vec();
+            let u: Vec<Vec<u8>> = (0..4).map(|i| body[2 * k + 6 + i * 4 * k..2 * k + 6 + (i + 1) * 4 * k].to_vec()).collect();
+            let reference: Vec<u8> = [u[0].clone(), r.clone(), u[1].clone(), r.clone(), u[2].clone(), r.clone(), u[3].clone()].concat();
+            let c1 = u[0].len();
+            let c2 = c1 + r.len() + u[1].len();
+            // junction SNPs: the base right after copy 1 and right before copy 2; ordinary SNPs in unique sequence
+            let sites = vec![c1 + r.len(), c2 - 1, 2 * k, c2 + r.len() + 2 * k, reference.len() - 2 * k];
+            let n = 6usize;
+            let samples: Vec<Vec<Vec<u8>>> = (0..n)
+                .map(|i| {
+                    let mut s = reference.clone();
+                    for (j, p) in sites.iter().enumerate() {
+                        if (i + j) % 3 != 0 {
+                            s[*p] = lo::alt_base(reference[*p], 1 + ((j % 2) as u8));
+                        }
+                    }
+                    vec![if i % 2 == 1 { rc_str(&s) } else { s }]
+                })
+                .collect();
+            let dir = scratch::path("c11rep");
+            let mut outs: std::collections::BTreeMap<String, Vec<(usize, u64)>> = std::collections::BTreeMap::new();
+            let nseeds = if thorough { 24 } else { 8 };
+            let mut ok = true;
+            for hs in 0..nseeds {
+                for t in [1usize, 2, 4] {
+                    rep.evaluations += 1;
+                    rep.nontrivial += 1;
+                    match lo::run_lo(&dir, k, &samples, Some(&reference), &[], t, Some(ctx.seed + hs)) {
+                        Ok(o) if o.code == 0 => {
+                            let canon = format!("{:?}|{:?}|{:?}", o.snp_seqs, o.snps_vcf, o.pseudo.map(|p| p.1));
+                            outs.entry(canon).or_default().push((t, ctx.seed + hs));
+                        }
+                        Ok(o) => {
+                            ok = false;
+                            rep.violate(format!("lo-ref repeat family threads={t} seed={hs}"), format!("ska lo -r on the repeat reference exits {} {}", o.code, o.stderr_tail), json!({"cmd": "LoRefRepeat", "threads": t, "hash_seed": hs}));
+                        }
+                        Err(e) => rep.machinery(e),
+                    }
+                }
+            }
+            rep.corner("lo_ref_with_three_copy_repeat");
+            rep.extra.insert("max_lo_ref_repeat_distinct_outputs".into(), json!(outs.len()));
+            if ok && outs.len() > 1 {
+                let groups: Vec<String> = outs.values().map(|v| format!("{v:?}")).collect();
+                rep.violate("lo-ref repeat family: outputs differ".into(), format!("ska lo -r on a reference with a three-copy repeat gives {} different results depending on (threads, hash seed): {}", outs.len(), groups.join(" vs ")), json!({"cmd": "LoRefRepeat", "groups": groups}));
+            }
+        }
     }
     if !rep.capped {
         rep.completed.push("(1)+(2) CLI configuration sweep".into());
